@@ -312,6 +312,8 @@ LEVELS = {
     "reduced": (FORMS_RED, FRAMES_RED, 2, {"copy", "copy_form", "copy_frame", "pickle", "conv", "form", "frame", "bad_form",
                                             "bad_frame", "hill", "bad_center", "bad_ephem", "copy_bad_center", "read_infos", "form_call", "w_idx", "w_name", "w_alias", "meta", "man_append",
                                             "man_edit", "cov_cell"}),
+    # covariance taken out of the state's frame (QSW), state moved, then copies / pickles: the FUTURE of the covariance
+    "covlocal": (FORMS_RED, FRAMES_FULL, 2, {"cov_qsw", "frame", "form", "copy", "copy_frame", "pickle", "conv", "w_idx"}),
     "core": (FORMS_RED, FRAMES_RED, 2, {"copy", "copy_form", "copy_frame", "conv", "form", "frame", "hill", "w_idx",
                                          "man_append", "man_edit", "cov_cell"}),
     "core-plus": (FORMS_RED, FRAMES_RED, 2, {"copy", "copy_form", "copy_frame", "conv", "form", "frame", "hill", "bad_center", "read_infos", "form_call", "w_idx",
@@ -344,6 +346,8 @@ def alphabet(w, level):
             ops.append(["man_edit", i])
         if M["cov"] is not None:
             ops.append(["cov_cell", i])
+            if level == "covlocal" and M["cov"][0] != "QSW":
+                ops.append(["cov_qsw", i])
     if kinds is not None:
         ops = [op for op in ops if op[0] in kinds]
     return ops
@@ -374,6 +378,8 @@ def model_step(w, op):
         ms[i] = S.set_frame(M, op[2], fmap, mu)
         if ms[i]["cov"] != M["cov"]:
             _propagate(w, ms, i, "cov", w.share_cov)
+    elif k == "cov_qsw":
+        ms[i] = S.with_(M, cov=("QSW", M["cov"][1]))  # values adopted from the object after the call (numerics: C14)
     elif k == "read_infos" or k == "form_call":
         pass  # reading derived quantities / calling the form as a function changes nothing
     elif k in FAILING:
@@ -446,6 +452,8 @@ def real_step(w, op):
         x.frame = BAD_EPHEM
     elif k == "copy_bad_center":
         x.copy(frame=BAD_CENTER)
+    elif k == "cov_qsw":
+        x.cov.frame = "QSW"
     elif k == "form_call":
         w.probe = x.form(x, op[2])  # documented callable: elements of x in another (or the same) form
     elif k == "read_infos":
@@ -727,6 +735,10 @@ def step(w, op, case, t, checking=True):
     except Exception as e:  # library raised
         raised = e
     t.trans()
+    if k == "cov_qsw" and raised is None:
+        c = w.objs[i]._data["cov"]
+        ms[i] = sm().with_(ms[i], cov=("QSW", tuple(float(v) for v in np.array(c, dtype=float).flatten())))
+        _propagate(w, ms, i, "cov", w.share_cov)
     if not checking:
         if raised is None or must_raise:
             commit(w, op, ms, new_model, new_obj)
@@ -747,6 +759,10 @@ def step(w, op, case, t, checking=True):
     new_idx = n - 1 if new_obj is not None else None
     if k == "form_call":
         ok = _check_form_call(w, op, case, t, where)
+    if new_idx is not None and w.models[i]["cov"] is not None and w.models[new_idx]["cov"] == w.models[i]["cov"] and (
+        k == "pickle" or w.models[i]["cov"][0] != w.models[i]["frame"]
+    ):
+        ok = _check_cov_future(w, i, new_idx, k, case, t, where) and ok
     if bits is not None and exact_bits(w)[: len(bits)] != bits:
         # a method that returns a new object must leave every existing object bit-for-bit unchanged
         t.fail(f"{k}/receiver-changed/bits", "conversion methods that return a new object leave the receiver unchanged",
@@ -779,6 +795,30 @@ def step(w, op, case, t, checking=True):
             t.fail(sig, clause, case, exp, obs, detail)
         if not check_access(w.objs[j], t, case, where):
             ok = False
+    return ok
+
+
+def _check_cov_future(w, i, j, k, case, t, where):
+    """The covariance of a copy / unpickled object is the same physical quantity as the original's: converted (on
+    throw-away copies) to probe frames it gives the same matrix, bit for bit."""
+    ok = True
+    ca, cb = w.objs[i]._data.get("cov"), w.objs[j]._data.get("cov")
+    if ca is None or cb is None:
+        return True
+    for pf in ("QSW", "TNW", "EME2000"):
+        try:
+            a = np.array(ca.copy(frame=pf), dtype=float)
+            b = np.array(cb.copy(frame=pf), dtype=float)
+            t.trans(2)
+            same = np.array_equal(a, b, equal_nan=True)
+            obs = b
+        except Exception as e:
+            same, a, obs = False, None, repr(e)
+        if not same:
+            t.fail(f"{k}/result-cov-future", "copying / pickling preserves the covariance: expressed in any other frame it gives the "
+                   "same matrix as the original's", case, a, obs, f"{where}: covariance converted to {pf}")
+            ok = False
+            break
     return ok
 
 
@@ -1569,6 +1609,7 @@ def units(tier, seed):
         for r in ("sv_full", "orb_full"):
             for s in range(4):
                 u.append((cfg, dict(part="hist", root=r, depth=4, level="core-plus", first=[s, 4])))
+            u.append((cfg, dict(part="hist", root=r, depth=4, level="covlocal", first=None)))
     else:
         split = 16
         for r in ("sv_full", "orb_full"):
@@ -1576,6 +1617,8 @@ def units(tier, seed):
                 u.append((cfg, dict(part="hist", root=r, depth=6, level="core", first=[s, 11])))
             for s in range(13):
                 u.append((cfg, dict(part="hist", root=r, depth=5, level="core-plus", first=[s, 13])))
+            for s in range(4):
+                u.append((cfg, dict(part="hist", root=r, depth=5, level="covlocal", first=[s, 4])))
         for r in ("sv_full", "orb_full", "sv_bare", "orb_bare"):
             lvl = "full" if r in ("sv_full", "orb_full") else "full-noinfos"
             for s in range(split):
